@@ -49,14 +49,14 @@ func WithGlobalTx(ctx context.Context, gc *GtxConfig, business CallbackWithCtx) 
 		return fmt.Errorf("global transaction name is required.")
 	}
 
-	// open global transaction for the first time
 	if !IsSeataContext(ctx) {
+		// open global transaction for the first time
 		ctx = InitSeataContext(ctx)
-	}
-
-	// an enclosing global transaction keeps its own context variable (xid, role, name): the
-	// scope opened here works on a new context that only inherits the xid
-	if IsGlobalTx(ctx) {
+	} else {
+		// an enclosing scope keeps its own context variable (xid, role, name) - also one that runs
+		// without a global transaction (NotSupported, Supports, Never): the scope opened here works on
+		// a new context that only inherits the xid, so that what it begins and ends is not seen, and
+		// not ended a second time, by the scope around it
 		ctx = transferTx(ctx)
 	}
 
